@@ -569,7 +569,11 @@ func (r *renderer) randGap(nlOK bool, must bool) string {
 				g = "\n"
 			}
 		case k < 18:
-			g = "\n\n" + strings.Repeat(" ", ch.Intn(4, "ind"))
+			nl := 2
+			if ch.Intn(4, "blankrun") == 0 {
+				nl = 4 + ch.Intn(3, "blankrunlen") // three to five blank lines in a row
+			}
+			g = strings.Repeat("\n", nl) + strings.Repeat(" ", ch.Intn(4, "ind"))
 		default:
 			if opt.Comments {
 				g = " //" + commentPool[ch.Intn(len(commentPool), "cmt")] + "\n" + strings.Repeat(" ", ch.Intn(3, "ind"))
